@@ -117,7 +117,7 @@ theorem loop_ext (hI : PermInv P) (hE : Equiv canon S S') (hW : View.WF P S) (ma
 
 theorem outcome_ext (hI : PermInv P) (hE : Equiv canon S S') (hW : View.WF P S) (maxHops : Nat)
     (dom : Dom) (r : Rule) (e : Ex) : outcome P S maxHops dom r e = outcome P S' maxHops dom r e := by
-  unfold outcome
+  unfold outcome outcomeWith
   simp only [← hE.config, loop_ext hI hE hW]
   cases P.expected e with
   | none => rfl
@@ -145,15 +145,15 @@ def applyEvent (P : Pipe Rule Req Cfg Ex Id UId UT Core U M Dom) (st : TestOut R
 
 theorem testRule_eq (maxHops : Nat) (dom : Dom) (st : TestOut Rule Ex Id UId U M) (r : Rule) :
     testRule P S maxHops dom st r = (ruleEvents P S maxHops dom r).foldl (applyEvent P) st := by
-  unfold testRule ruleEvents
+  unfold testRule testRuleWith ruleEvents
   cases P.examples r with
   | none => rfl
-  | some exs => simp [List.foldl_map, applyEvent]
+  | some exs => simp [List.foldl_map, applyEvent, outcome]
 
 /-- `create_result` is the fold of the updates over the processed examples. -/
-theorem testExamples_eq_fold (maxHops : Nat) (dom : Dom) :
-    testExamples P S maxHops dom = (events P S maxHops dom).foldl (applyEvent P) TestOut.init := by
-  unfold testExamples events
+theorem testExamplesUnordered_eq_fold (maxHops : Nat) (dom : Dom) :
+    testExamplesUnordered P S maxHops dom = (events P S maxHops dom).foldl (applyEvent P) TestOut.init := by
+  unfold testExamplesUnordered events
   rw [List.foldl_flatMap]
   congr 1
   funext st r
@@ -966,12 +966,12 @@ variable [DecidableEq Id] [DecidableEq U] [DecidableEq M]
 variable {P : Pipe Rule Req Cfg Ex Id UId UT Core U M Dom}
 variable {canon : Tr → C} {S S' : View Rule Req Cfg Tr}
 
-theorem testExamples_counts_ext (hI : PermInv P) (hE : Equiv canon S S') (hW : View.WF P S)
+theorem testExamplesUnordered_counts_ext (hI : PermInv P) (hE : Equiv canon S S') (hW : View.WF P S)
     (maxHops : Nat) (dom : Dom) :
-    (testExamples P S maxHops dom).exampleCount = (testExamples P S' maxHops dom).exampleCount ∧
-    (testExamples P S maxHops dom).failureCount = (testExamples P S' maxHops dom).failureCount ∧
-    (testExamples P S maxHops dom).errorCount = (testExamples P S' maxHops dom).errorCount := by
-  rw [testExamples_eq_fold, testExamples_eq_fold]
+    (testExamplesUnordered P S maxHops dom).exampleCount = (testExamplesUnordered P S' maxHops dom).exampleCount ∧
+    (testExamplesUnordered P S maxHops dom).failureCount = (testExamplesUnordered P S' maxHops dom).failureCount ∧
+    (testExamplesUnordered P S maxHops dom).errorCount = (testExamplesUnordered P S' maxHops dom).errorCount := by
+  rw [testExamplesUnordered_eq_fold, testExamplesUnordered_eq_fold]
   obtain ⟨a1, a2, a3⟩ := fold_counts (P := P) (events P S maxHops dom) TestOut.init
   obtain ⟨b1, b2, b3⟩ := fold_counts (P := P) (events P S' maxHops dom) TestOut.init
   have hp := events_perm hI hE hW maxHops dom
@@ -991,10 +991,10 @@ def ErrorsBounded (P : Pipe Rule Req Cfg Ex Id UId UT Core U M Dom) (S : View Ru
     ∀ ev ∈ events P S maxHops dom, (errorOf P ev).2.2.isSome → P.ruleId ev.1 ∈ ids
 
 theorem failures_lookup (maxHops : Nat) (dom : Dom) (hb : FailuresBounded P S maxHops dom) (id : Id) :
-    lookupE id (testExamples P S maxHops dom).firstTenFailures =
+    lookupE id (testExamplesUnordered P S maxHops dom).firstTenFailures =
       extendE none (itemsFor id ((events P S maxHops dom).map (failureOf P))) := by
   obtain ⟨ids, hn, hlen, hall⟩ := hb
-  rw [testExamples_eq_fold, (fold_maps (P := P) (events P S maxHops dom) TestOut.init).1]
+  rw [testExamplesUnordered_eq_fold, (fold_maps (P := P) (events P S maxHops dom) TestOut.init).1]
   rw [truncMap_eq_fullMap ids hn hlen _ (by
       intro t ht hs
       simp only [List.mem_map] at ht
@@ -1004,10 +1004,10 @@ theorem failures_lookup (maxHops : Nat) (dom : Dom) (hb : FailuresBounded P S ma
   simp [TestOut.init, lookupE]
 
 theorem errors_lookup (maxHops : Nat) (dom : Dom) (hb : ErrorsBounded P S maxHops dom) (id : Id) :
-    lookupE id (testExamples P S maxHops dom).firstTenErrors =
+    lookupE id (testExamplesUnordered P S maxHops dom).firstTenErrors =
       extendE none (itemsFor id ((events P S maxHops dom).map (errorOf P))) := by
   obtain ⟨ids, hn, hlen, hall⟩ := hb
-  rw [testExamples_eq_fold, (fold_maps (P := P) (events P S maxHops dom) TestOut.init).2]
+  rw [testExamplesUnordered_eq_fold, (fold_maps (P := P) (events P S maxHops dom) TestOut.init).2]
   rw [truncMap_eq_fullMap ids hn hlen _ (by
       intro t ht hs
       simp only [List.mem_map] at ht
@@ -1026,25 +1026,151 @@ theorem errorsBounded_ext (hI : PermInv P) (hE : Equiv canon S S') (hW : View.WF
   obtain ⟨ids, hn, hlen, hall⟩ := hb
   exact ⟨ids, hn, hlen, fun ev hev => hall ev ((events_perm hI hE hW maxHops dom).mem_iff.mpr hev)⟩
 
-theorem testExamples_failures_ext (hI : PermInv P) (hE : Equiv canon S S') (hW : View.WF P S)
+theorem testExamplesUnordered_failures_ext (hI : PermInv P) (hE : Equiv canon S S') (hW : View.WF P S)
     (maxHops : Nat) (dom : Dom) (hb : FailuresBounded P S maxHops dom) (id : Id) :
-    lookupE id (testExamples P S maxHops dom).firstTenFailures =
-      lookupE id (testExamples P S' maxHops dom).firstTenFailures := by
+    lookupE id (testExamplesUnordered P S maxHops dom).firstTenFailures =
+      lookupE id (testExamplesUnordered P S' maxHops dom).firstTenFailures := by
   rw [failures_lookup maxHops dom hb, failures_lookup maxHops dom (failuresBounded_ext hI hE hW maxHops dom hb)]
   have := itemsFor_events_ext (fun ev : Event Rule Ex Id UId U M =>
     (match ev.2.2 with | .failed f => some f | _ => none)) hI hE hW maxHops dom id
   unfold failureOf
   rw [this]
 
-theorem testExamples_errors_ext (hI : PermInv P) (hE : Equiv canon S S') (hW : View.WF P S)
+theorem testExamplesUnordered_errors_ext (hI : PermInv P) (hE : Equiv canon S S') (hW : View.WF P S)
     (maxHops : Nat) (dom : Dom) (hb : ErrorsBounded P S maxHops dom) (id : Id) :
-    lookupE id (testExamples P S maxHops dom).firstTenErrors =
-      lookupE id (testExamples P S' maxHops dom).firstTenErrors := by
+    lookupE id (testExamplesUnordered P S maxHops dom).firstTenErrors =
+      lookupE id (testExamplesUnordered P S' maxHops dom).firstTenErrors := by
   rw [errors_lookup maxHops dom hb, errors_lookup maxHops dom (errorsBounded_ext hI hE hW maxHops dom hb)]
   have := itemsFor_events_ext (fun ev : Event Rule Ex Id UId U M =>
     (match ev.2.2 with | .errored msg => some (ev.2.1, msg) | _ => none)) hI hE hW maxHops dom id
   unfold errorOf
   rw [this]
+
+end
+end Rio.Analysis
+
+/-! ### test-examples as repaired (rules in id order): plain equality -/
+
+namespace Rio.Analysis
+open Rio.Loop
+
+section
+variable {Rule Req Cfg Tr C Ex Id UId UT Core U M Dom : Type}
+variable [DecidableEq Id] [DecidableEq U] [DecidableEq M]
+variable {P : Pipe Rule Req Cfg Ex Id UId UT Core U M Dom}
+variable {canon : Tr → C} {S S' : View Rule Req Cfg Tr}
+
+/-- `Ord for String` on ids: a total order (what `sort_by(a.cmp(b))` relies on). -/
+structure IdOrder (P : Pipe Rule Req Cfg Ex Id UId UT Core U M Dom) : Prop where
+  total : ∀ a b, (P.idLe a b || P.idLe b a) = true
+  trans : ∀ a b c, P.idLe a b = true → P.idLe b c = true → P.idLe a c = true
+  antisymm : ∀ a b, P.idLe a b = true → P.idLe b a = true → a = b
+
+theorem eq_of_nodup_map {α β : Type} (f : α → β) : ∀ {L : List α}, (L.map f).Nodup →
+    ∀ {a b : α}, a ∈ L → b ∈ L → f a = f b → a = b := by
+  intro L
+  induction L with
+  | nil => intro _ a b ha; cases ha
+  | cons x t ih =>
+    intro hn a b ha hb hf
+    rw [List.map_cons, List.nodup_cons] at hn
+    rcases List.mem_cons.mp ha with rfl | ha'
+    · rcases List.mem_cons.mp hb with rfl | hb'
+      · rfl
+      · exact absurd (hf ▸ List.mem_map_of_mem (f := f) hb') hn.1
+    · rcases List.mem_cons.mp hb with rfl | hb'
+      · exact absurd (hf ▸ List.mem_map_of_mem (f := f) ha') hn.1
+      · exact ih hn.2 ha' hb' hf
+
+theorem insertById_perm (r : Rule) (L : List Rule) : (insertById P r L).Perm (r :: L) := by
+  induction L with
+  | nil => exact List.Perm.refl _
+  | cons x t ih =>
+    unfold insertById
+    split
+    · exact List.Perm.refl _
+    · exact (List.Perm.cons x ih).trans (List.Perm.swap r x t)
+
+theorem sortById_perm_self (L : List Rule) : (sortById P L).Perm L := by
+  induction L with
+  | nil => exact List.Perm.refl _
+  | cons r t ih =>
+    show (insertById P r (sortById P t)).Perm (r :: t)
+    exact (insertById_perm r _).trans (List.Perm.cons r ih)
+
+theorem insertById_sorted (hO : IdOrder P) (r : Rule) (L : List Rule)
+    (h : L.Pairwise fun a b => P.idLe (P.ruleId a) (P.ruleId b) = true) :
+    (insertById P r L).Pairwise fun a b => P.idLe (P.ruleId a) (P.ruleId b) = true := by
+  induction L with
+  | nil => simp [insertById]
+  | cons x t ih =>
+    rw [List.pairwise_cons] at h
+    unfold insertById
+    split
+    · rename_i hle
+      rw [List.pairwise_cons]
+      refine ⟨?_, List.pairwise_cons.mpr h⟩
+      intro y hy
+      rcases List.mem_cons.mp hy with rfl | hy'
+      · exact hle
+      · exact hO.trans _ _ _ hle (h.1 y hy')
+    · rename_i hnle
+      have hxr : P.idLe (P.ruleId x) (P.ruleId r) = true := by
+        have := hO.total (P.ruleId r) (P.ruleId x)
+        simp only [Bool.or_eq_true] at this
+        rcases this with h1 | h1
+        · exact absurd h1 hnle
+        · exact h1
+      rw [List.pairwise_cons]
+      refine ⟨?_, ih h.2⟩
+      intro y hy
+      rcases List.mem_cons.mp ((insertById_perm r t).mem_iff.mp hy) with rfl | hy'
+      · exact hxr
+      · exact h.1 y hy'
+
+theorem sortById_sorted (hO : IdOrder P) (L : List Rule) :
+    (sortById P L).Pairwise fun a b => P.idLe (P.ruleId a) (P.ruleId b) = true := by
+  induction L with
+  | nil => simp [sortById]
+  | cons r t ih => exact insertById_sorted hO r _ ih
+
+/-- the id-sorted list of routes is a function of the SET of routes (ids distinct) -/
+theorem sortById_perm (hO : IdOrder P) {L L' : List Rule} (hp : L.Perm L') (hn : NodupIds P.ruleId L) :
+    sortById P L = sortById P L' := by
+  have hperm : (sortById P L).Perm (sortById P L') :=
+    (sortById_perm_self L).trans (hp.trans (sortById_perm_self L').symm)
+  apply List.Perm.eq_of_pairwise (le := fun a b => P.idLe (P.ruleId a) (P.ruleId b) = true) _
+    (sortById_sorted hO L) (sortById_sorted hO L') hperm
+  intro a b ha hb hab hba
+  have hid := hO.antisymm _ _ hab hba
+  have haL : a ∈ L := (sortById_perm_self L).mem_iff.mp ha
+  have hbL : b ∈ L := hp.mem_iff.mpr ((sortById_perm_self L').mem_iff.mp hb)
+  exact eq_of_nodup_map P.ruleId hn haL hbL hid
+
+theorem testRule_ext (hI : PermInv P) (hE : Equiv canon S S') (hW : View.WF P S) (maxHops : Nat) (dom : Dom) :
+    testRule P S maxHops dom = testRule P S' maxHops dom := by
+  funext st r
+  unfold testRule testRuleWith
+  cases P.examples r with
+  | none => rfl
+  | some exs =>
+    have h : ∀ e, outcomeWith P S (loop P S maxHops dom) r e = outcomeWith P S' (loop P S' maxHops dom) r e :=
+      fun e => outcome_ext hI hE hW maxHops dom r e
+    simp only [h]
+
+/-- **test-examples (as repaired) is a function of the rule set**: the whole output – the three counters and
+both `first_ten_*` maps with their truncation – is EQUAL for equivalent routers. -/
+theorem testExamples_ext (hO : IdOrder P) (hI : PermInv P) (hE : Equiv canon S S') (hW : View.WF P S)
+    (maxHops : Nat) (dom : Dom) : testExamples P S maxHops dom = testExamples P S' maxHops dom := by
+  have h : testRuleWith P S (loop P S maxHops dom) = testRuleWith P S' (loop P S' maxHops dom) :=
+    testRule_ext hI hE hW maxHops dom
+  unfold testExamples testExamplesWith
+  rw [sortById_perm hO hE.routes hW.routes, h]
+
+/-- the repaired analysis is the old one run on the id-sorted route list -/
+theorem testExamples_eq_unordered (maxHops : Nat) (dom : Dom) :
+    testExamples P S maxHops dom =
+      testExamplesUnordered P { S with routes := sortById P S.routes } maxHops dom := rfl
 
 end
 end Rio.Analysis
